@@ -38,13 +38,13 @@ THEOREM_CLASSES = {
     "C02_rt_is_modular_add": "main", "C02_rt_is_modular_sub": "main", "C02_rt_is_modular_mul": "main", "C02_rt_is_modular_unm": "main",
     "C02_rt_is_modular_bitwise": "main", "C02_rt_is_modular_idiv_mod": "main", "C02_rt_shift_helpers": "main",
     "C02_rt_is_modular_shifts_refuted": "refutation", "C02_rt_is_modular_shifts_partial": "main",
-    "C02_rt_context_independent_refuted": "refutation", "C02_rt_context_independent_partial": "main", "C02_rt_context_independent_if_cast": "main", "C02_const_count_shift_eq_helper_8bit": "corollary",
+    "C02_rt_context_independent": "main", "C02_const_count_shift_eq_helper_8bit": "corollary",
     "C02_comparisons_agree": "main", "C02_fold_agrees_partial_arith": "main", "C02_fold_exact_partial": "main",
     "C02_wrap_value_correct": "main", "C02_baked_literal": "main", "C02_conv_rejected_iff": "definitional",
 }
 UNPROVED = [
     "fold_agrees (Proofs.fold_agrees_at) is proved for + - * only (typed operands, all types and values); for // % /// %%% | ~ & << >> >>> the same statement is evaluated by the oracle on every case (proved pieces: fold exactness for + - * // % incl. untyped literals when the result fits 64 bits, run-time modularity of every operator but /// %%% and unsigned // %, comparisons)",
-    "run-time theorems are about the STORED value of an operator result; that a result consumed directly by another operator has the same value is the Definition C02_rt_context_independent, REFUTED today (`l << k`, k a compile-time count, l unsigned and narrower than int: proposed repair 11) and proved for everything else (C02_rt_context_independent_partial, run-time and compile-time counts) + the fixed list NESTED_PROBES (implementation); deeper nesting, right-nested and half-constant nested forms other than a literal shift count: not modelled",
+    "run-time theorems are about the STORED value of an operator result; that a result consumed directly by another operator has the same value is C02_rt_context_independent (model, run-time and compile-time shift counts, its cast conditions scraped from the emitter) + the fixed list NESTED_PROBES (implementation); deeper nesting, right-nested and half-constant nested forms other than a literal shift count: not modelled",
     "`///` `%%%` and unsigned `//` `%` at run time, unary `~` on both sides, fold_un: correspondence only",
     "half-constant forms (one operand a baked literal), the C type of the emitted literal (Model.lit_ctype), untyped literals at run time: correspondence/probes only",
     "floats (float32/float64 operands, `/`, `^`): no theorem; fold vs run time compared bit for bit on generated probes; float32 folding is an open finding",
@@ -53,7 +53,7 @@ UNPROVED = [
     "C02_conv_rejected_iff is definitional (conv_accepts := in_rangeb); its link to C04's nelua_assert_narrow_ predicate is C04_narrow_fires_iff, in another sub-project",
 ]
 MANIFEST_ENTRY = {
-    "text": "proof, partial: theorems (integers, all types and values) for the run-time side of + - * unary- | ~ & // % (signed) << >> >>> (counts in int64) and all comparisons, for wrap_value / literal re-wrap, and for fold = run time on + - *; the full fold = run-time statement for the other operators, half-constant forms and untyped literals at run time rest on differential testing (one refuted statement recorded: uint64 shift counts); nested = stored (run-time and compile-time shift counts) is refuted for `l << k` with a constant count on uint8/uint16 and a theorem of the model otherwise, its cast conditions scraped from the emitter, tied by 274 probes; floats: differential testing only",
+    "text": "proof, partial: theorems (integers, all types and values) for the run-time side of + - * unary- | ~ & // % (signed) << >> >>> (counts in int64) and all comparisons, for wrap_value / literal re-wrap, and for fold = run time on + - *; the full fold = run-time statement for the other operators, half-constant forms and untyped literals at run time rest on differential testing (one refuted statement recorded: uint64 shift counts); nested = stored (run-time and compile-time shift counts) is a theorem of the model whose cast conditions are scraped from the emitter, tied by 274 probes; floats: differential testing only",
     "note": "trusted: Coq kernel, Base/CInt Gnu mode = gcc/clang, bint(160) = Z mod 2^160 (C17), helpers taken from the generated C through harness/C04/cparse.py, type table through harness/C04/types.lua (files owned by property C04), hand model of types.lua fold functions",
     "technique": "machine-checked proof in Coq over an executable model + helpers scraped from the generated C + extracted-model/implementation correspondence and probe programs",
 }
